@@ -62,8 +62,40 @@ def seqExec (F : Funs) (ops : List BOp) (σ : Store) : SeqState :=
 
 def flatStmts (ops : List BOp) : List Stmt := (Builder.run ops).out.map (·.1)
 
+/-- a store in a box: `Store` is a function type, and compiled code that *returns* a function is
+    run again for every look-up; a structure (with two fields: a one-field structure is represented
+    by its field) makes the driver run each statement once -/
+structure Boxed where
+  σ : Store
+  pad : Nat := 0
+
+def flatStepB (F : Funs) (stmts : List Stmt) (b : Boxed) (i : Nat) : Boxed :=
+  match stmts[i]? with
+  | some s => { σ := (execI F s b.σ).σ }
+  | none => b
+
+def flatStep (F : Funs) (stmts : List Stmt) (σ : Store) (i : Nat) : Store :=
+  match stmts[i]? with
+  | some s => (execI F s σ).σ
+  | none => σ
+
 def flatExec (F : Funs) (stmts : List Stmt) (π : List Nat) (σ : Store) : Store :=
-  π.foldl (fun σ i => match stmts[i]? with | some s => (execI F s σ).σ | none => σ) σ
+  (π.foldl (flatStepB F stmts) { σ := σ }).σ
+
+theorem flatStepB_σ (F : Funs) (stmts : List Stmt) (b : Boxed) (i : Nat) :
+    (flatStepB F stmts b i).σ = flatStep F stmts b.σ i := by
+  unfold flatStepB flatStep; split <;> rfl
+
+/-- `flatExec` is the plain fold (the box is only there for the compiled driver) -/
+theorem flatExec_def (F : Funs) (stmts : List Stmt) : ∀ (π : List Nat) (σ : Store),
+    flatExec F stmts π σ = π.foldl (flatStep F stmts) σ := by
+  intro π
+  have : ∀ (b : Boxed), (π.foldl (flatStepB F stmts) b).σ = π.foldl (flatStep F stmts) b.σ := by
+    induction π with
+    | nil => intro b; rfl
+    | cons i π ih => intro b; simp only [List.foldl_cons]; rw [ih, flatStepB_σ]
+  intro σ
+  exact this { σ := σ }
 
 /-! ### one step -/
 
@@ -100,12 +132,6 @@ def evOf : Event → Ev
 inductive Outcome where
   | completed | failed | raised | stuck
   deriving DecidableEq, Repr
-
-/-- a store in a box: `Store` is a function type, and a compiled function that *returns* a function
-    is run again for every look-up; returning a structure makes the driver run each step once -/
-structure Boxed where
-  σ : Store
-  pad : Nat := 0     -- a one-field structure is represented by its field: the box would vanish
 
 /-- what `run` makes of the store the body of a phase left behind (`@[noinline]`, and the store
     arrives in its box: the compiled driver must not move the execution of the body into the
